@@ -79,7 +79,7 @@ def gen(rng, thorough):
     if r < 0.55:
         ops.append("K %d %s" % (victim, rng.choice("owcra")))
     elif r < 0.8:
-        ops.append("F %d %s %d" % (victim, rng.choice("ocr"), rng.choice([5, 28, 13])))      # EIO ENOSPC EACCES
+        ops.append("F %d %s %d" % (victim, rng.choice("owcr"), rng.choice([5, 28, 13])))     # EIO ENOSPC EACCES
     ops += ["C", "L", "Q"]
     if rng.random() < 0.5:
         now += 50
@@ -233,7 +233,7 @@ def run(ctx):
         "exhaustive": False,
     })
     ctx.assumptions += ["rename(2) is atomic, a died process leaves the effects of its completed system calls (no power loss: the code "
-                        "does not fsync)", "failing write(2) calls are the recorded finding D23 and are not injected",
+                        "does not fsync)", "a failing write(2) is injected at the first write of the victim's file (files of more than 4 KiB take several writes; later ones are not failed)",
                         "queue files are compared by the UIDs they hold; byte-level fidelity of a task's text is C05's matter"]
     if st != "ok" and not fails and not corr:
         ctx.violation("correspondence", "harness ended with %s: %s" % (st, err[-600:]), {"stderr": err}, found_input=False)
